@@ -47,6 +47,8 @@ func runC09(p *core.Prog, r *core.Report) {
 	c08R8(p, r, "C09.R9")
 	importOrderRule(p, r, "C09.R10")
 	c09R11(p, r)
+	// the importer skips what the target already has: that question goes to the target
+	headAsksRule(p, r, "C09.R12")
 }
 
 // c09R11: the archive names the image by the tag it was exported under, and the export takes that
@@ -867,5 +869,39 @@ func c09R8(p *core.Prog, r *core.Report) {
 	}
 	if n == 0 {
 		r.MissingAnchor(rule, "reads of the manifest.json entry list next to its selection loop")
+	}
+}
+
+// headAsksRule: "is it there" is answered by the place that was asked about. The client's BlobHead
+// and ManifestHead return, on success, what the scheme's method of the same name returned to this
+// call; a reader built from the descriptor itself (inline data, a cache of earlier answers) says
+// "present" for a target that never received the content, and importers and copiers skip the upload.
+func headAsksRule(p *core.Prog, r *core.Report, rule string) {
+	r.Rule(rule, "existence is asked, not assumed: every return of the client's BlobHead / ManifestHead that can report success hands back the result of the scheme's method of the same name made by this call (a reader built from the descriptor's inline data would report content present on a target that never received it)", 2)
+	for _, name := range []string{"BlobHead", "ManifestHead"} {
+		fn := p.Method(".", "RegClient", name)
+		if fn == nil {
+			r.MissingAnchor(rule, "regclient.(*RegClient)."+name)
+			continue
+		}
+		ok, bad, n := true, "", 0
+		for _, ret := range core.Returns(fn) {
+			if len(ret.Results) < 2 || failureReturn(fn, ret) {
+				continue
+			}
+			v := core.ReturnOperand(ret, 0)
+			if core.IsNilConst(v) {
+				continue
+			}
+			n++
+			for _, o := range core.Origins(v, core.SliceOpts{}) {
+				if o.Kind == core.OCall && o.Call != nil && o.Call.Call.IsInvoke() && (o.Call.Call.Method.Name() == name || (name == "ManifestHead" && o.Call.Call.Method.Name() == "ManifestGet")) {
+					continue // (a platform lookup in an index fetches the index from the same scheme)
+				}
+				ok, bad = false, p.Pos(ret.Pos())
+			}
+		}
+		r.Check(ok && n > 0, rule, p.FuncName(fn), "answer comes from the scheme", p.Pos(fn.Pos()),
+			"the return at "+bad+" reports success with a value that is not the scheme's answer: the question whether the target holds the content is answered without asking the target")
 	}
 }
